@@ -6,6 +6,11 @@ from record import Session
 from checks import check, TRACE_CFG, validate_sessions, RULE, count_sessions
 
 
+import locale
+# graph_from_file opens files with the platform's default encoding: non-ASCII header lines are only put into files where that is UTF-8
+UTF8_FILES = locale.getpreferredencoding(False).lower().replace("-", "") == "utf8"
+
+
 def mc_molfile_cfg(spec, family, emit, invs, override=""):
     return (f"SPECIFICATION {spec}\nCONSTANTS Emit = {'TRUE' if emit else 'FALSE'} Family = \"{family}\"\n" + override
             + "".join(f"INVARIANT {i}\n" for i in invs) + ("CONSTRAINT EmitText\n" if emit else "") + "CHECK_DEADLOCK FALSE\n")
@@ -59,7 +64,7 @@ def corpus_text_sessions(pfx, tier, rng, max_lines):
 def v3000_random_sessions(rng, tier, n):
     ss = []
     for i in range(n):
-        M = textgen.abstract_molecule(rng, 7)
+        M = textgen.abstract_molecule(rng, 7, bigmass=i % 5 == 0)       # MASS values of any width (numbers are integers of any size)
         S = Session(f"v3-{i}")
         nat = len(M["atoms"])
         perm = gen.random_perm(rng, nat)
@@ -331,7 +336,7 @@ def c06(out, tier, rng):
                 a["rad"] = 2
         nat = len(M["atoms"])
         S = Session(f"c06-{i}")
-        ids = []
+        ids, rids = [], []
         perms = []
         for v in range(rng.choice([2, 3])):
             N = M if v == 0 else nonidentity_variant(M, rng)
@@ -342,18 +347,21 @@ def c06(out, tier, rng):
             else:
                 lines, _ = textgen.render_v3000(N, rng, perm=perm)
                 fmt = "V3000"
-            x = S.read(lines, fmt, "C07" if fmt == "V3000" else "C08", floats=textgen.floats_of(N), eol=rng.choice(["\n", "\r\n"]))
-            ids.append(x); perms.append(perm)
+            via_file = rng.random() < 0.3
+            if via_file and UTF8_FILES and rng.random() < 0.6:
+                lines[rng.choice([0, 2])] = rng.choice(textgen.UNICODE_HEADERS)      # title / comment line in the file's encoding
+            x = S.read(lines, fmt, "C07" if fmt == "V3000" else "C08", floats=textgen.floats_of(N), eol=rng.choice(["\n", "\r\n"]), via_file=via_file)
+            ids.append(x); perms.append(perm); rids.append(S.last_read)
         for x in ids:
             if x:
                 c = S.canon(x)
                 if c:
                     S.ser(c)
         for j in range(1, len(ids)):
-            if ids[0] and ids[j]:
-                # atom at file position perms[0][k] in text 0 is atom k of M, which sits at perms[j][k] in text j
-                inv0 = {perms[0][k]: k for k in range(nat)}
-                S.sametext(ids[0], ids[j], [perms[j][inv0[p]] for p in range(nat)], "C06", strict=False)
+            # atom at file position perms[0][k] in text 0 is atom k of M, which sits at perms[j][k] in text j
+            # (stated for the TEXTS: also when the reader rejected one of them)
+            inv0 = {perms[0][k]: k for k in range(nat)}
+            S.sametext(rids[0], rids[j], [perms[j][inv0[p]] for p in range(nat)], "C06", strict=False)
         ss.append(S)
     # corpus files re-rendered with perturbed non-identity data
     for name, g in gen.corpus(40)[: (15 if tier == "quick" else 200)]:
